@@ -42,6 +42,7 @@ import (
 	"runtime/pprof"
 	"sort"
 	"strings"
+	"time"
 
 	"github.com/go-logr/logr"
 	admissionv1 "k8s.io/api/admission/v1"
@@ -706,7 +707,18 @@ func main() {
 			}
 		}
 		up, upMsg := adm.admit(admissionv1.Update, oldX, newX)
-		out["adm"] = map[string]any{"create": cr, "createMsg": crMsg, "update": up, "updateMsg": upMsg}
+		// ... and the same UPDATE on an XRD that is being deleted but still exists (deletionTimestamp set, held by a
+		// finalizer while instances exist): it is still an XRD, the verdict must be the same
+		// (added after the seeded change C11-m8 - "a terminating XRD needs no validation" - was missed)
+		term := func(x *v1.CompositeResourceDefinition) *v1.CompositeResourceDefinition {
+			c := x.DeepCopy()
+			now := metav1.NewTime(time.Unix(1700000000, 0))
+			c.SetDeletionTimestamp(&now)
+			c.SetFinalizers([]string{"defined.apiextensions.crossplane.io"})
+			return c
+		}
+		upT, _ := adm.admit(admissionv1.Update, term(oldX), term(newX))
+		out["adm"] = map[string]any{"create": cr, "createMsg": crMsg, "update": up, "updateMsg": upMsg, "updateTerminating": upT}
 
 		tw.Boundary()
 		ev := map[string]any{"ev": "out", "scenario": sc.ID, "fam": in.Fam, "sub": in.Sub, "seed": fmt.Sprint(sd), "input": sc.Input, "output": out}
